@@ -78,6 +78,11 @@ class ScriptSocket:
         pass
 
     def sendto(self, data, addr):
+        # the thread may be held up between taking the datagram off the queue and the moment the OS sends it (pre-emption, a lock):
+        # the next entry of send_delays is the virtual time that passes first
+        delays = getattr(self.e, "send_delays", None)
+        if delays:
+            self.e.vt.t += delays.pop(0)
         self.e.on_send(bytes(data), addr)
         return len(data)
 
@@ -173,6 +178,10 @@ class Engine:
             elif isinstance(act, tuple) and act[0] == "delay":
                 self.wire.append((t0, "s2c", data, "delay"))
                 self.deliver(data, SPA_ADDR, when + float(act[1]))
+            elif isinstance(act, tuple) and act[0] == "replace":
+                # the spa's reply arrives with other content (a garbled / nonsensical but well-framed answer)
+                self.wire.append((t0, "s2c", act[1], "replace"))
+                self.deliver(act[1], SPA_ADDR, when)
             elif act == "swap" and i + 1 < len(replies):
                 self.wire.append((t0, "s2c", data, "swap"))
                 self.wire.append((t0, "s2c", replies[i + 1][0], "swapped-forward"))
